@@ -47,6 +47,7 @@ func main() {
 	genFieldFlow(repo, filepath.Join(tmp, "FieldFlow.v"))
 	genFormats(repo, filepath.Join(tmp, "Formats.v"))
 	genPrinters(repo, filepath.Join(tmp, "Printers.v"))
+	genWriter(repo, filepath.Join(tmp, "WriterTable.v"))
 	ents, err := os.ReadDir(tmp)
 	must(err)
 	for _, e := range ents {
